@@ -65,9 +65,10 @@ static void ref_step(Ref *t, int o)
     switch (o) {
     case O_BLK0: t->blocking = 0; break; case O_BLK1: t->blocking = 1; break; case O_T0: case O_TNEG: t->timeout = 0; break; case O_T50: t->timeout = 50; break;
     case O_KA0: if (!t->closed) t->keepalive = 0; break; case O_KA1: if (!t->closed) t->keepalive = 1; break;
-    case O_BACKLOG: if (!t->listening) t->backlog = 3; break; case O_BIND: if (!t->closed) t->bound = 1; break; case O_LISTEN: if (!t->closed) t->listening = 1; break;
+    case O_BACKLOG: if (!t->listening) t->backlog = 3; break; case O_BIND: if (!t->closed) t->bound = 1; break; case O_LISTEN: if (!t->closed && !DGRAM) t->listening = 1; break;
     case O_CONN_OK: if (!t->closed) { t->connected = 1; t->have_peer_conn = 1; t->peer_listening = 1; } break;
     case O_CONN_SILENT: t->have_peer_conn = 1; t->bound = 1; break;
+    case O_CONN_REFUSED: if (!t->closed) t->have_peer_conn = 1; break;      /* what a socket may still do after a refused connect is not defined: only options and close follow */
     case O_ACCEPT: if (!t->closed && t->pending > 0) { t->pending--; t->acc_open = 1; } break;
     case O_RECV: if (!t->closed && t->rx > 0) t->rx -= t->rx < 4 ? t->rx : 4; break;
     case O_SHUT_W: t->shut_w = 1; break; case O_SHUT_RW: t->shut_w = 1; t->connected = 0; break;
@@ -81,7 +82,8 @@ static void ref_step(Ref *t, int o)
 static int op_applicable(const Ref *r, int op)
 {
     if (DGRAM) switch (op) {
-        case O_BLK0: case O_BLK1: case O_T0: case O_T50: case O_TNEG: case O_CLOSE: return 1;
+        case O_BLK0: case O_BLK1: case O_T0: case O_T50: case O_TNEG: case O_CLOSE: case O_BACKLOG: return 1;
+        case O_LISTEN: return !r->closed;          /* fails at the system call (datagram sockets cannot listen): must leave the object unchanged */
         case O_BIND: return !r->bound && !r->closed;
         case O_SENDTO: case O_RECVFROM: case O_WAIT_IN: return r->bound || r->closed;
         case O_PSENDTO: return r->bound && !r->closed && r->rx < 2;
@@ -90,7 +92,7 @@ static int op_applicable(const Ref *r, int op)
     switch (op) {
     case O_BLK0: case O_BLK1: case O_T0: case O_T50: case O_TNEG: case O_KA0: case O_KA1: case O_BACKLOG: case O_CLOSE: return 1;
     case O_BIND: return !r->bound && !r->connected && !r->listening && !r->have_peer_conn;      /* binding a socket that was connected before is not defined */
-    case O_LISTEN: return (r->bound && !r->connected && !r->listening) || r->closed;
+    case O_LISTEN: return (r->bound && !r->connected && !r->listening && !r->have_peer_conn) || r->closed;
     case O_CONN_OK: case O_CONN_REFUSED: return (!r->connected && !r->listening && !r->bound && !r->have_peer_conn) || r->closed;
     case O_CONN_SILENT: return !r->connected && !r->listening && !r->bound && !r->have_peer_conn && !r->closed;
     case O_ACCEPT: return (r->listening && !r->acc_open) || r->closed;
@@ -204,7 +206,10 @@ static void do_op(const Ref *pre, int op)
     case O_KA1: p_socket_set_keepalive(sut, TRUE); if (!r->closed) r->keepalive = 1; break;
     case O_BACKLOG: p_socket_set_listen_backlog(sut, 3); if (!r->listening) r->backlog = 3; break;
     case O_BIND: { PSocketAddress *a = lib_addr(0); res = p_socket_bind(sut, a, TRUE, &e); p_socket_address_free(a); if (!r->closed) { if (!res) viol("bind/failed", "bind to an ephemeral port failed: %s", ec(e)); r->bound = 1; } break; }
-    case O_LISTEN: res = p_socket_listen(sut, &e); if (!r->closed) { if (!res) viol("listen/failed", "listen on a bound stream socket failed: %s", ec(e)); r->listening = 1; } break;
+    case O_LISTEN: res = p_socket_listen(sut, &e);
+        if (DGRAM) { if (res) viol("listen/datagram-succeeded", "listen on a datagram socket reported success"); }
+        else if (!r->closed) { if (!res) viol("listen/failed", "listen on a bound stream socket failed: %s", ec(e)); r->listening = 1; }
+        break;
     case O_CONN_OK: case O_CONN_REFUSED: {
         PSocketAddress *a; int port;
         if (op == O_CONN_OK) { struct sockaddr_storage ss; socklen_t l = mkaddr(&ss, 0); peer_listen = socket(native_family(), SOCK_STREAM, 0); if (bind(peer_listen, (struct sockaddr *)&ss, l) < 0 || listen(peer_listen, 4) < 0) { perror("peer listen"); exit(2); } port = port_of(peer_listen); }
@@ -224,7 +229,7 @@ static void do_op(const Ref *pre, int op)
         p_socket_address_free(a);
         if (!r->closed) {
             if (op == O_CONN_OK) { if (!res) viol("connect/failed", "connect to a listening peer failed: %s", ec(e)); r->connected = 1; r->have_peer_conn = 1; r->peer_listening = 1; peer_conn = accept(peer_listen, NULL, NULL); if (peer_conn < 0) { viol("connect/peer-sees-nothing", "library reports a connection but the peer has nothing to accept"); } }
-            else { if (res || !e || p_error_get_code(e) != (pint)P_ERROR_IO_CONNECTION_REFUSED) viol("connect/refused-expected", "connect to a closed port: result %ld error %s (expected connection refused)", res, ec(e)); }
+            else { r->have_peer_conn = 1; if (res || !e || p_error_get_code(e) != (pint)P_ERROR_IO_CONNECTION_REFUSED) viol("connect/refused-expected", "connect to a closed port: result %ld error %s (expected connection refused)", res, ec(e)); }
         }
         break; }
     case O_CONN_SILENT: {     /* a listener whose accept queue is full: the handshake never completes */
@@ -371,6 +376,12 @@ int main(int argc, char **argv)
                 Ref t = r; ref_step(&t, op);
                 ref_key(&t, key, sizeof key);
                 if (st_find(key) < 0) st_add(key, s, op, n + 1);
+                else if (!strcmp(key, st[s].key)) {
+                    /* the call left the reference state unchanged (a call that failed, an option set to the value it had): hidden state in
+                     * the object would make the *next* call misbehave, so every applicable next call is tried once from here */
+                    int op2, eb2;
+                    for (op2 = 0; op2 < NOPS; op2++) if (op_applicable(&t, op2)) { h[n + 1] = (unsigned char)op2; hist_text(h, n + 2, cur_hist, sizeof cur_hist); fail_flag = 0; run_history(h, n + 2, tf, NULL, &eb2); }
+                }
             }
             (void)k;
         }
